@@ -256,6 +256,37 @@ func (sh *shadow) genVA(r *hx.Rng, cfg genCfg, run *hx.Run) *event {
 	return e
 }
 
+// genVASameCluster: a valid ValidatorAdded for a validator that is not registered yet, with the owner and the
+// operator set (in a fresh random order) of a registered one — so that clusters hold several validators and
+// ClusterLiquidated / ClusterReactivated save several shares in one call.
+func (sh *shadow) genVASameCluster(r *hx.Rng, cfg genCfg, run *hx.Run) *event {
+	_, sv := sh.anyVal(r)
+	free := 0
+	for v := 1; v <= nVal; v++ {
+		if _, ok := sh.vals[v]; !ok {
+			free = v
+			if r.Bool() {
+				break
+			}
+		}
+	}
+	if sv == nil || free == 0 {
+		return sh.genVA(r, cfg, run)
+	}
+	e := &event{Kind: "VA", Owner: sv.owner, Val: free, Len: -1, SN: sh.nonce[sv.owner] % 65536}
+	for i, o := range shuffled(r, sv.ops) {
+		m := member{Op: o, Key: 1 + (free*3+i)%nShare}
+		if o == sh.own && sh.own != 0 {
+			m.Dec, m.KM = true, true
+		}
+		e.Mem = append(e.Mem, m)
+	}
+	sh.nonce[e.Owner]++
+	sh.vals[free] = &shadowVal{owner: sv.owner, ops: append([]uint64{}, sv.ops...)}
+	run.Tag("va:same-cluster")
+	return e
+}
+
 func (sh *shadow) anyVal(r *hx.Rng) (int, *shadowVal) {
 	if len(sh.vals) == 0 {
 		return 0, nil
@@ -293,8 +324,10 @@ func (sh *shadow) genEvent(r *hx.Rng, cfg genCfg, run *hx.Run) *event {
 		e := &event{Kind: "OR", ID: uint64(1 + r.Intn(int(sh.nextOp)+1))}
 		run.Tag("or")
 		return e
-	case c < 52:
+	case c < 40:
 		return sh.genVA(r, cfg, run)
+	case c < 52: // another validator in the cluster (same owner, same operator set) of a registered validator
+		return sh.genVASameCluster(r, cfg, run)
 	case c < 64: // removal
 		v, sv := sh.anyVal(r)
 		e := &event{Kind: "VR", Owner: 1 + r.Intn(nOwners), Val: 1 + r.Intn(nVal)}
@@ -324,6 +357,20 @@ func (sh *shadow) genEvent(r *hx.Rng, cfg genCfg, run *hx.Run) *event {
 		return e
 	case c < 86: // liquidation / reactivation
 		_, sv := sh.anyVal(r)
+		if r.Bool() { // prefer a cluster (owner + operator set) that holds several validators
+			best := 0
+			for _, cand := range sh.vals {
+				n := 0
+				for _, other := range sh.vals {
+					if other.owner == cand.owner && sameSet(other.ops, cand.ops) {
+						n++
+					}
+				}
+				if n > best || (n == best && sv != nil && cand.owner < sv.owner) {
+					best, sv = n, cand
+				}
+			}
+		}
 		e := &event{Kind: pick2(r, "CL", "CR"), Owner: 1 + r.Intn(nOwners)}
 		if sv != nil && r.Chance(85) {
 			e.Ops = shuffled(r, sv.ops)
@@ -431,8 +478,10 @@ func genHistoryC12(r *hx.Rng, run *hx.Run) []item {
 		c := r.Intn(100)
 		v, sv := sh.anyVal(r)
 		switch {
-		case c < 34 || sv == nil:
+		case c < 22 || sv == nil:
 			items = append(items, item{ev: sh.genVA(r, cfg, run)})
+		case c < 34:
+			items = append(items, item{ev: sh.genVASameCluster(r, cfg, run)})
 		case c < 52:
 			e := &event{Kind: "VR", Owner: sv.owner, Val: v, Ops: shuffled(r, sv.ops)}
 			if r.Chance(12) {
@@ -463,4 +512,23 @@ func genHistoryC12(r *hx.Rng, run *hx.Run) []item {
 		}
 	}
 	return items
+}
+
+func sameSet(a, b []uint64) bool {
+	if len(a) != len(b) {
+		return false
+	}
+	m := map[uint64]int{}
+	for _, x := range a {
+		m[x]++
+	}
+	for _, x := range b {
+		m[x]--
+	}
+	for _, v := range m {
+		if v != 0 {
+			return false
+		}
+	}
+	return true
 }
